@@ -418,7 +418,8 @@ def constructor(chk):
     name = init.qual
 
     def inline(f, ct):
-        return f.qual == "cobald.utility:enforce"
+        # the validation may live in a private helper of the class (also a static one) or of the module
+        return f.qual == "cobald.utility:enforce" or (not f.is_async and f.name.startswith("_") and not f.name.startswith("__") and ((f.cls is not None and f.cls.qual in cls.mro) or (f.cls is None and f.module is init.module)))
 
     it = Interp(prog, init, inline=inline, assert_raises=True)
     # a NaN parameter compares unordered ("u") with everything: `enforce(minimum <= maximum)` rejects it, the look-alike
